@@ -96,6 +96,10 @@ func Ob_C05C13_RollbackMeta() {
 	if len(m0.Commits) == 0 {
 		_, alias := w.Model.GetModel(w.Ctx, aliasKey(m0))
 		sym.Assert("C05.rollback-removes-uncommitted-model-and-alias", !still && !alias)
+		// no stale expiry entry stays behind for the removed model (a later model with the same id
+		// would be deleted at that height although its paid term has not ended)
+		e, ef := w.Model.GetExpiredData(w.Ctx, m0.CreatedAt+m0.Duration)
+		sym.AssertKF("C11.rollback-unschedules-removed-model", !ef || !inList(dataId, e.Data), sym.KF("KF-C11-1", true))
 	} else {
 		sym.Assert("C05.rollback-restores-last-version", still && m1.Status == modeltypes.MetaComplete &&
 			m1.OrderId == m0.Orders[len(m0.Orders)-1] && sym.DeepEq(&m0.Commits, &m1.Commits) && sym.DeepEq(&m0.Orders, &m1.Orders) &&
